@@ -71,7 +71,11 @@ def oracle(line: str, obs: Obs):
         if int(size["sockPeers"]) > nlive or int(size["half"]) > nlive:
             fails.append({"what": "a closed connection is still held in the node's socket / pending-connection tables",
                           "event": ev[:200], "real": f"{size} live={nlive}"})
-        closed_in_tables = [k for k, c in conns.items() if c["state"] == "CLOSED" and c["live"] == "1" and t[0] not in ("wr",)]
+        closed_in_tables = [k for k, c in conns.items() if c["state"] == "CLOSED" and c["live"] == "1" and
+                            t[0] not in ("wr", "dial", "sethbh", "outcome", "mark")]      # (events that do not run the node)
+        if closed_in_tables:
+            fails.append({"what": "a closed connection is still in the node's connection table at a quiescent point",
+                          "event": ev[:200], "real": f"closed and registered: {closed_in_tables}"})
         # application readiness
         for ai, a in enumerate(cfg["apps"]):
             ad = apps.get(f"a{ai}")
